@@ -167,8 +167,11 @@ def git_own_expansion(repo, argv):
 E2E_ALIASES = [
     ("st", "status --short"), ("lg", "log --oneline"), ("l", "lg -3"), ("cm", "commit --allow-empty -m ''"),
     ("sh", "!echo shell-alias"), ("a", "b"), ("b", "a"), ("q", "log '--format=%H %s'"), ("pl", "-p log -1"),
-    ("status", "log --oneline"), ("bs", "rev-parse\\"),
+    ("bs", "rev-parse\\"),
 ]
+# configured only for the last invocations: an alias named like a git command (git ignores it)
+E2E_SHADOW = ("status", "log --oneline")
+E2E_SHADOW_ARGVS = [["status"], ["-c", "a=b", "status", "--short"]]
 E2E_FIXED = [
     ["status"], ["-c", "a=b", "status", "--short"], ["-C", ".", "log", "-1"], ["--no-pager", "log", "--oneline"],
     ["-p", "rev-parse", "HEAD"], ["--git-dir=.git", "rev-parse", "--git-dir"], ["--literal-pathspecs", "ls-files", "--", "f.txt"],
@@ -179,7 +182,7 @@ E2E_FIXED = [
     ["-C", ".", "-c", "core.pager=cat", "lg", "-2"], ["é"], ["commit", "--allow-empty", "-m", ""],
     # known-finding witnesses
     ["--html-path", "status", "--short"], ["--version", "-p"], ["--version", "status"], ["--help", "-a", "--version"],
-    ["status"], ["bs"], ["--", "st"],
+    ["bs"], ["--", "st"], ["--", "status"], ["--", "--", "status"],
 ]
 
 
@@ -228,7 +231,13 @@ def phase_e2e(res, seed, n):
                 r.plain_git("config", f"alias.{k}", v)
             alias_names = {k for k, _ in E2E_ALIASES}
             logp = os.path.join(env.root, "argv.log")
-            for user in E2E_FIXED + e2e_argvs(seed, n):
+            runs = [(u, False) for u in E2E_FIXED + e2e_argvs(seed, n)] + [(u, True) for u in E2E_SHADOW_ARGVS]
+            shadow_set = False
+            for user, shadow in runs:
+                if shadow and not shadow_set:
+                    r.plain_git("config", f"alias.{E2E_SHADOW[0]}", E2E_SHADOW[1])
+                    alias_names.add(E2E_SHADOW[0])
+                    shadow_set = True
                 if os.path.exists(logp):
                     os.unlink(logp)
                 r.git(*user, env={"VERIF_ARGV_LOG": logp, "VERIF_REAL_GIT": e2e.REAL_GIT, "GIT_PAGER": "cat"})
@@ -247,12 +256,14 @@ def phase_e2e(res, seed, n):
                 kind, at = git_scan(user)
                 uses_alias = kind == "command" and user[at] in alias_names
                 if not ok1 and uses_alias:
-                    # accepted alternative: git's own expansion (globals kept in place)
+                    # accepted alternative: git's own expansion in place of the alias word (the
+                    # alias's leading options may stay in front of the command: git applies them)
                     if user[at] in builtins:
                         sig = "alias:shadows-git-command"
                     else:
                         exp = git_own_expansion(r, user)
-                        if exp is not None and got == user[:at] + exp:
+                        if exp is not None and got[:at] == user[:at] and got[len(got) - len(exp):] == exp \
+                                and all(t.startswith("-") for t in got[at:len(got) - len(exp)]):
                             ok1 = True
                         elif any(k == user[at] and v.endswith("\\") for k, v in E2E_ALIASES):
                             sig = "alias:trailing-backslash-accepted"
